@@ -9,7 +9,9 @@ From NV Require Import Lang.Ast.
 Import ListNotations.
 Local Open Scope Z_scope.
 
-Inductive fault := FAssert | FDivZero | FDivOverflow | FOob.      (* FOob: array index outside 0 <= i < length *)
+Inductive fault := FAssert | FDivZero | FDivOverflow | FOob | FStrDomain.
+(* FOob: array index outside 0 <= i < length.  FStrDomain: a string builtin applied outside the domain on which the engines
+   agree (Ast.char_at_v / substr_v / concat_v): like a division fault, a partial operation about which nothing is claimed *)
 
 Inductive res (A : Type) :=
   | Ok (a : A) (out : list N)
@@ -72,6 +74,28 @@ Definition eval_binop (o : binop) (a b : value) : opres :=
   | BGe, VInt x, VInt y => OV (VBool (x >=? y))
   | BAnd, VBool x, VBool y => OV (VBool (x && y))
   | BOr, VBool x, VBool y => OV (VBool (x || y))
+  | _, _, _ => OStuck
+  end.
+
+(* string builtins (docs/STDLIB.md): byte strings, lengths and indexes in bytes *)
+Definition eval_str1 (o : sop1) (v : value) : opres :=
+  match o, v with
+  | SLen, VStr s => OV (VInt (Z.of_nat (length s)))
+  | SOfInt, VInt z => OV (VStr (print_Z z))
+  | _, _ => OStuck
+  end.
+Definition eval_str2 (o : sop2) (a b : value) : opres :=
+  match o, a, b with
+  | SPlus, VStr x, VStr y | SConcat, VStr x, VStr y =>
+      match concat_v x y with Some r => OV (VStr r) | None => OF FStrDomain end
+  | SEquals, VStr x, VStr y => OV (VBool (if list_eq_dec N.eq_dec x y then true else false))
+  | SContains, VStr x, VStr y => OV (VBool (containsb x y))
+  | SCharAt, VStr x, VInt i => match char_at_v x i with Some c => OV (VInt c) | None => OF FStrDomain end
+  | _, _, _ => OStuck
+  end.
+Definition eval_substr (s st ln : value) : opres :=
+  match s, st, ln with
+  | VStr x, VInt a, VInt b => match substr_v x a b with Some r => OV (VStr r) | None => OF FStrDomain end
   | _, _, _ => OStuck
   end.
 
@@ -166,6 +190,16 @@ Fixpoint eval_expr (fuel : nat) (genv en : env) (e : expr) (out : list N) {struc
     | ELen a =>
         bind (eval_expr fuel' genv en a out) (fun va out1 =>
           match va with VArr l => Ok (VInt (Z.of_nat (length l))) out1 | _ => Stuck end)
+    | EStr1 o a => bind (eval_expr fuel' genv en a out) (fun v out1 => of_opres (eval_str1 o v) out1)
+    | EStr2 o a b =>
+        bind (eval_expr fuel' genv en a out) (fun va out1 =>
+        bind (eval_expr fuel' genv en b out1) (fun vb out2 =>
+        of_opres (eval_str2 o va vb) out2))
+    | ESubstr a b c =>
+        bind (eval_expr fuel' genv en a out) (fun va out1 =>
+        bind (eval_expr fuel' genv en b out1) (fun vb out2 =>
+        bind (eval_expr fuel' genv en c out2) (fun vc out3 =>
+        of_opres (eval_substr va vb vc) out3)))
     end
   end
 with exec_stmt (fuel : nat) (genv en : env) (s : stmt) (out : list N) {struct fuel} : res (ctl * env) :=
